@@ -55,11 +55,11 @@ theorem abort_status :
 In both cases `close` starts from its beginning (`.start`) in the same poll. -/
 theorem handler_abort_status (c : Conn) (r : AReq) (h : HState) (r' : AReq) (h' : HState) (e : Env)
     (hp : c.phase = .handler r h) :
-    (handlerPoll (handlerFuel c.env r) r h c.env = (r', h', e, .done (.error .abortRequest)) →
+    (handlerPoll ((handlerFuel c.env r + scriptOf c)) r h c.env = (r', h', e, .done (.error .abortRequest)) →
       stepConn c = .next { c with
         phase := .closing r' .start ExitStatus.abort (h'.writers.filter Option.isSome).length,
         env := e.ev "HE(err:abort-request)" }) ∧
-    (∀ st, handlerPoll (handlerFuel c.env r) r h c.env = (r', h', e, .done (.ok st)) →
+    (∀ st, handlerPoll ((handlerFuel c.env r + scriptOf c)) r h c.env = (r', h', e, .done (.ok st)) →
       stepConn c = .next { c with
         phase := .closing r' .start st (h'.writers.filter Option.isSome).length,
         env := e.ev s!"HE(ok:{showStatus st})" }) := by
